@@ -2246,29 +2246,62 @@ pub fn intern_pending<'db>(db: &'db dyn TyckDb) -> ScopedData<'db> {
     )
 }
 
-/// One call of a client that hands a resolved program to the session.
+/// A resolved program travelling with the ticket of the call that submitted it.
 ///
 /// [`intern_pending`] has no query key, so salsa memoizes its first result for
-/// the life of the database. Long-lived sessions key the hand-over by a ticket
-/// that is unique per call, so every program crossing the slot is interned.
-#[salsa::interned]
-pub struct PendingTicket<'db> {
-    pub number: u64,
+/// the life of the database, and its slot is shared by every snapshot of a
+/// session. Long-lived sessions therefore hand each program over inside an
+/// interned ticket that is unique per call: every call is interned, and
+/// concurrent calls on snapshots cannot take each other's program.
+#[derive(Clone)]
+pub struct TicketedParts {
+    number: u64,
+    parts: std::sync::Arc<std::sync::Mutex<Option<PendingParts>>>,
 }
 
-/// [`intern_pending`] for one ticket: interns the program currently in the slot.
+impl TicketedParts {
+    pub fn new(number: u64, parts: PendingParts) -> Self {
+        Self { number, parts: std::sync::Arc::new(std::sync::Mutex::new(Some(parts))) }
+    }
+}
+
+impl PartialEq for TicketedParts {
+    fn eq(&self, other: &Self) -> bool {
+        self.number == other.number
+    }
+}
+
+impl Eq for TicketedParts {}
+
+impl std::hash::Hash for TicketedParts {
+    fn hash<H: std::hash::Hasher>(&self, state: &mut H) {
+        self.number.hash(state);
+    }
+}
+
+impl std::fmt::Debug for TicketedParts {
+    fn fmt(&self, f: &mut std::fmt::Formatter<'_>) -> std::fmt::Result {
+        write!(f, "TicketedParts({})", self.number)
+    }
+}
+
+/// One call of a client that hands a resolved program to the session.
+#[salsa::interned]
+pub struct PendingTicket<'db> {
+    #[returns(clone)]
+    pub parts: TicketedParts,
+}
+
+/// [`intern_pending`] for one ticket: interns the program the ticket carries.
 #[salsa::tracked]
-pub fn intern_pending_for<'db>(db: &'db dyn TyckDb, _ticket: PendingTicket<'db>) -> ScopedData<'db> {
-    let parts = db
-        .pending_parts()
+pub fn intern_pending_for<'db>(db: &'db dyn TyckDb, ticket: PendingTicket<'db>) -> ScopedData<'db> {
+    let parts = ticket
+        .parts(db)
+        .parts
         .lock()
-        .expect("pending check slot poisoned")
+        .unwrap_or_else(std::sync::PoisonError::into_inner)
         .take()
-        .expect("pending check slot is empty");
-    let parts = match std::sync::Arc::try_unwrap(parts) {
-        | Ok(parts) => parts,
-        | Err(_) => panic!("pending parts are still shared"),
-    };
+        .expect("a ticket is interned once");
     ScopedData::new(
         db,
         std::sync::Arc::new(parts.spans),
